@@ -51,7 +51,7 @@ func (w *World) CheckInstance(inst *Instance, class string, cc *crashCtx) {
 		return
 	}
 	if !ok {
-		w.Violate(class+".liveness", "not quiescent after %d fair steps with %d queued notifications: %v", n, pending, w.S.ParkedSummary())
+		w.Violate(class+".liveness", "not quiescent after %d fair steps with %d queued notifications: %v | wallet errors: %q", n, pending, w.S.ParkedSummary(), w.RecentErrors(4))
 		return
 	}
 	if len(w.S.FatalExits) > 0 {
